@@ -5,6 +5,8 @@ C02 - coherent object tree and registry.  Decides ownership and pairing:
   R02.3 subtree completeness of the re-keying routines; fresh key for a superseded object
   R02.5 every insertion into a contents table handles the entry that is already there
   R02.4 kind by place
+  R02.6 replaced package: its modules leave the work queue with it; fallback linearisation names a class once; a docstring field gives a kind to variables only;
+        only module-level objects are moved by a re-export
 Does not decide: the heap invariants after arbitrary histories (one key per object, reachability, unique page names).
 """
 from __future__ import annotations
@@ -349,7 +351,88 @@ def run(repo: Repo, chk: Check, thorough: bool = False) -> None:
     if n_ins < 2:
         raise AnalysisError(f'R02.5: {n_ins} insertions into a contents table found (2 confirmed: System.addObject, Documentable.reparent)')
     chk.require('R02.5', 2)
+    check_r02_6(repo, chk)
 
 
 def _values(f: Func, name: str) -> List[ast.AST]:
     return [n.value for n in f.walk() if isinstance(n, ast.Assign) and any(isinstance(t, ast.Name) and t.id == name for t in n.targets)]
+
+
+def check_r02_6(repo: Repo, chk: Check) -> None:
+    from ..util import values_of
+    SYSQ = 'pydoctor.model.System'
+    # (a) a module that replaces another of the same name (two source directories holding one package): System._remove unregisters the whole subtree
+    # of the replaced one, so the whole subtree must leave the work queue too - a submodule that stays queued is processed later and registers its
+    # classes below a parent that is registered nowhere and that no root reaches
+    hd = repo.func(f'{SYSQ}._handleDuplicateModule')
+    rem = [c for c in calls_in(hd) if call_name(c) == '_remove']
+    deq = [c for c in calls_in(hd) if call_name(c) == 'remove' and isinstance(c.func, ast.Attribute) and 'unprocessed_modules' in norm(c.func.value)]
+    if not rem or not deq:
+        raise AnalysisError('R02.6: _handleDuplicateModule no longer unregisters / dequeues the replaced module')
+    whole = any(any(isinstance(p_, (ast.While, ast.For)) for p_ in parents(c)) and
+                any(isinstance(x, ast.Attribute) and x.attr == 'contents' for p_ in parents(c) if isinstance(p_, (ast.While, ast.For)) for x in ast.walk(p_))
+                for c in deq) or any(call_name(c) not in ('remove',) and 'unprocessed_modules' in norm(c) and isinstance(c, ast.Call) for c in [])
+    chk.ob('R02.6', f'{SYSQ}._handleDuplicateModule :: the modules below a replaced package leave the work queue with it', whole,
+           'the dequeue walks the contents of the replaced module' if whole else
+           f'`{norm(deq[0])}` takes only the replaced module itself out of the queue while `{norm(rem[0])}` unregisters its whole subtree: the submodules are still '
+           'processed and re-register their objects under an unregistered parent (orphans in allobjects, links to pages that are never written)', repo.loc(hd.mod, deq[0]))
+    # (b) the fallback stored when the linearisation cannot be computed: allbases() yields a shared ancestor once per path - "contains each of its
+    # resolved bases once" needs a de-duplication
+    im = repo.func('pydoctor.model.Class._init_mro')
+    fb = [n for n in im.walk() if isinstance(n, ast.Assign) and any(isinstance(t, ast.Attribute) and t.attr == '_mro' for t in n.targets) and
+          any(isinstance(p_, ast.ExceptHandler) for p_ in parents(n))]
+    if not fb:
+        raise AnalysisError('R02.6: the fallback linearisation of Class._init_mro was not found')
+    for n in fb:
+        uses_allbases = any(isinstance(c, ast.Call) and call_name(c) == 'allbases' for c in ast.walk(n.value))
+        dedup = any(isinstance(c, ast.Call) and (call_name(c) in ('fromkeys', 'unique', 'OrderedDict') or call_name(c) == 'set') for c in ast.walk(n.value)) or \
+            isinstance(n.value, ast.Name)
+        okb = not uses_allbases or dedup
+        chk.ob('R02.6', 'pydoctor.model.Class._init_mro :: the fallback linearisation names every class once', okb,
+               norm(n.value)[:70] if okb else
+               f'`{norm(n.value)}`: allbases() repeats an ancestor that is reached along two paths - `class Stream(Generic[T], Buffered[T], Source[T])` gets '
+               '[Stream, Buffered, Source, Source]', repo.loc(im.mod, n))
+    # (c) @ivar/@cvar/@var fields of a class or module docstring: the object found under that name gets the field's kind and text.  In a package the
+    # contents already hold the submodules: only an Attribute (found or created) may be given a variable kind
+    ef = repo.func('pydoctor.epydoc2stan.extract_fields')
+    cfe = CFG(ef)
+    ks = [n for n in ef.walk() if isinstance(n, ast.Assign) and any(isinstance(t, ast.Attribute) and t.attr == 'kind' for t in n.targets) and
+          not (isinstance(n.value, ast.Constant) and n.value.value is None)]
+    if not ks:
+        raise AnalysisError('R02.6: extract_fields no longer assigns a kind')
+    for n in ks:
+        tgt = next(t for t in n.targets if isinstance(t, ast.Attribute) and t.attr == 'kind')
+        var = norm(tgt.value)
+        typed = any(isinstance(t, ast.Call) and call_name(t) == 'isinstance' and norm(t.args[0]) == var and 'Attribute' in norm(t.args[1]) and pol
+                    for t, pol in cfe.dominating_tests(n))
+        # or: on every path the object was created as an Attribute, or passed an edge on which isinstance(x, Attribute) holds
+        def _is_attr(t: ast.AST, pol: bool) -> bool:
+            if isinstance(t, ast.UnaryOp) and isinstance(t.op, ast.Not):
+                return _is_attr(t.operand, not pol)
+            return pol and isinstance(t, ast.Call) and call_name(t) == 'isinstance' and norm(t.args[0]) == var and 'Attribute' in norm(t.args[1])
+        safe_edges = [(nid, id(t_), k) for nid, edges in cfe.succ.items() for (t_, l, k) in edges if l is not None and _is_attr(l[0], l[1])]
+        creations = [a for a in ef.walk() if isinstance(a, ast.Assign) and any(norm(t) == var for t in a.targets) and isinstance(a.value, ast.Call) and
+                     call_name(a.value) == 'Attribute']
+        exits = id(n) not in cfe.reachable(cfe.ENTRY, avoid_nodes=creations, avoid_edges=safe_edges, no_exc=True)
+        okc = typed or bool(exits)
+        chk.ob('R02.6', 'pydoctor.epydoc2stan.extract_fields :: a docstring field gives a variable kind to variables only', okc,
+               f'`{var}` is an Attribute where `{norm(n)[:40]}` is reached' if okc else
+               f'`{norm(n)[:50]}` is applied to whatever `contents` holds under that name: `@var helpers:` in the docstring of a package that has a submodule '
+               '`helpers` turns the Module object into a "variable" that has children', repo.loc(ef.mod, n))
+    # (d) a re-export moves module-level objects.  resolveName follows `name = Class.member` aliases: the object found can be a member of a class,
+    # and moving it leaves a method (kind METHOD / CLASS_METHOD) directly in a package and takes it out of its class
+    hr = repo.func('pydoctor.astbuilder.ModuleVistor._handleReExport')
+    cfh = CFG(hr)
+    rp = [c for c in calls_in(hr) if call_name(c) == 'reparent' and isinstance(c.func, ast.Attribute)]
+    if not rp:
+        raise AnalysisError('R02.6: _handleReExport no longer calls reparent()')
+    for c in rp:
+        ob = norm(c.func.value)
+        facts = cfh.dominating_tests(cfh.stmt_of(c))
+        okd = any(isinstance(t, ast.Call) and call_name(t) == 'isinstance' and norm(t.args[0]) == f'{ob}.parent' and
+                  (('Class' in norm(t.args[1]) and not pol) or ('Module' in norm(t.args[1]) and pol)) for t, pol in facts)
+        chk.ob('R02.6', 'pydoctor.astbuilder.ModuleVistor._handleReExport :: only module-level objects are moved', okd,
+               f'`{ob}.parent` is tested before `{norm(c)[:40]}`' if okd else
+               f'`{norm(c)[:40]}` is reached for an object whose parent is a class (`create = Factory.create` re-exported through __all__): the class method is torn out of '
+               'its class and sits in the package with kind CLASS_METHOD', repo.loc(hr.mod, c))
+    chk.require('R02.6', 4)
